@@ -394,9 +394,9 @@ class SE2(SO2):
         :seealso: :func:`spatialmath.base.transforms2d.trexp`, :func:`spatialmath.base.transformsNd.skew`
         """
         if isinstance(S, (list, tuple)):
-            return cls([tr.trexp2(s) for s in S])
+            return cls([tr.trexp2(s, check=check) for s in S])
         else:
-            return cls(tr.trexp2(S), check=False)
+            return cls(tr.trexp2(S, check=check), check=False)
 
     @staticmethod
     def isvalid(x, check=True):
